@@ -47,6 +47,8 @@ InOrder == LET d == Dedup(s.sent, <<>>) IN \A i, j \in DOMAIN d : i < j => Rank(
 Completes == <>(s.pc = "done")
 Drains == [](s.db.outbox # <<>> => <>(s.db.outbox = <<>>))
 
+(* listed before Safety in the cfg: prints the crash points of a state that violates Safety *)
+EmitBad == Safety \/ PrintT(<<"BAD", ToJson([cr |-> cr])>>)
 EmitDone == (~Emit) \/ s.pc # "done" \/ PrintT(<<"B", ToJson([cr |-> cr])>>)
 ASSUME PrintT(<<"CONST", ToJson([others |-> Others, phaseLen |-> PhaseLen, accBlock |-> AccBlock, init |-> InitState])>>)
 
